@@ -54,6 +54,7 @@ def run(ctx):
 
     order_rule(ctx, syn)
     write_rule(ctx)
+    name_rule(ctx)
     r_both = ctx.rule("C11.BOTH", "every type that derives or implements Encode also derives or implements Decode and vice versa")
     r_idx = ctx.rule("C11.IDX", "every field/variant of an encoded type has a distinct index or is in the skip list")
     r_skip = ctx.rule("C11.SKIP", "#[cbor(skip)] only on the frozen list of run-time dirty flags (indices are stored, not rebuilt)")
@@ -452,3 +453,41 @@ def write_rule(ctx):
                 if not re.search(r"\bself\b|_1\b", str(key0) + " " + str(prov)):
                     ctx.report(r, "to_cbor_file|encodes-other", "to_cbor_file encodes `%s`, not the store it was called on" % key0, b.file, t.get("line"))
     ctx.floor(r, n, 3, "functions of the write chain")
+
+
+# ---------------------------------------------------------------------- NAME
+def name_rule(ctx, rid="C11.NAME"):
+    """to_file(name) sets the file name, save() writes it, from_file(name) reads it: the round trip starts with the name
+    being the one that was given.  set_filename switches the data format by the extension, and set_dataformat derives a
+    canonical name (`x.store.stam.cbor`) of its own: after any such call the given name has to be restored."""
+    import mirq
+    r = ctx.rule(rid, "in AnnotationStore::set_filename every path from a call of set_dataformat to the return passes through an assignment of self.filename that derives from the filename argument (the file written is the file asked for)")
+    prog = mirq.Program(ctx.facts.mir())
+    bs = prog.find_bodies(r"^<annotationstore::AnnotationStore as file::AssociatedFile>::set_filename$")
+    if len(bs) != 1:
+        ctx.anchor_missing(r, "<AnnotationStore as AssociatedFile>::set_filename")
+        return
+    b = bs[0]
+    ctx.functions_analysed.add(b.id)
+    calls = [bi for bi, t in b.calls() if (mirq.callee_of(t)[0] or "").endswith("AnnotationStore::set_dataformat")]
+    assigns = set()
+    for bi, blk in enumerate(b.blocks):
+        for s_ in blk["s"]:
+            p = s_.get("p") or {}
+            if p.get("l") == 1 and any(isinstance(x, dict) and x.get("n") == "filename" for x in p.get("p", [])):
+                rv = s_.get("rv") or {}
+                ops = [o for o in ([rv.get("o")] if rv.get("o") else []) + list(rv.get("ops") or []) if o]
+                if any("arg2" in b.provenance(o) for o in ops):
+                    assigns.add(bi)
+    rets = [bi for bi, blk in enumerate(b.blocks) if blk["t"]["t"] == "return"]
+    r.hit("set_filename", sample={"set_dataformat_calls": len(calls), "assignments_from_argument": len(assigns)})
+    if not calls:
+        r.notes.append("set_filename no longer calls set_dataformat: nothing can rename the store behind its back")
+    for c in calls:
+        succ = b.blocks[c]["t"].get("target")
+        starts = [succ] if isinstance(succ, int) else [x for x in (b.blocks[c]["t"].get("targets") or []) if isinstance(x, int)]
+        bad = any(st not in assigns and any(st == rt or b.can_reach(st, rt, avoid=assigns) for rt in rets) for st in starts) if starts else True
+        if bad:
+            ctx.report(r, "renamed-after-set_dataformat", "AnnotationStore::set_filename can return after set_dataformat (line %s) without restoring self.filename from its argument: set_dataformat replaces the name by a canonical one (x.cbor -> x.store.stam.cbor), so to_file(\"x.cbor\") writes another file than it was given and from_file(\"x.cbor\") finds nothing" % b.blocks[c]["t"].get("line"), b.file, b.blocks[c]["t"].get("line"))
+            break
+    ctx.floor(r, len(rets), 1, "returns of set_filename")
